@@ -23,6 +23,13 @@ user body), start(), stop(), ~AsyncLoop() and the constructor (see DESIGN.md sec
            tasking::schedule), and the closure owns its state: shared_ptr captured by value, nothing captured by
            reference, no `this`.
 
+Calls to functions defined in AsyncLoop.h itself (private/static helpers, AsyncLoopData members, closures that are invoked
+directly) are followed: the callee's CFG is explored from the state at the call site, so the event sequence, the lock state
+and constant boolean results are carried through (rkstatic.x_sync.Inliner); recursion makes the instance undecided.  A plain
+wait(lock) is accepted when, on every path reaching it, the thread has seen shouldBeRunning == false and
+threadShouldBeAlive == true while holding runningMutex without interruption (`while (!pred) wait(lock)` is the
+hand-expanded predicate overload).  Atomic members the protocol never reads (statistics) are ignored.
+
 Why R-C03-1 suffices for the safety clause ("after stop() returns the body is not executing and does not begin
 again until start()"): all four accesses are seq_cst, hence totally ordered.  If stop()'s final load of
 insideLoopBody (which follows its store shouldBeRunning = false) reads false, then either the loop's store
@@ -1046,7 +1053,6 @@ def check_loop_exit(E, f, lam, op):
     it does on every path), the loop closure reaches its end: no cycle survives in its CFG when the branches on those flags
     are resolved accordingly (the body and wait() are assumed to return; the predicate is true by R-C03-3)."""
     ctx, tu, sy = E.ctx, E.tu, E.sy
-    g = tu.cfg(op)
     fixed = {ALIVE: False}
     if dtor_always_stores(E, RUN, False):
         fixed[RUN] = False
@@ -1064,57 +1070,69 @@ def check_loop_exit(E, f, lam, op):
                     return a['field']
         return None
 
-    succ = {}
-    opaque = set()      # blocks whose branch does not depend on the flags at all
-    for b in g.blocks.values():
-        outs = []
-        for si, t in enumerate(b.succ):
-            if t is None:
-                continue
-            atom, truth = sy.edge_truth(b, si)
-            fl = flag_of(atom)
-            if fl in fixed and truth != fixed[fl]:
-                continue
-            if len(b.succ) == 2 and None not in b.succ and b.cond and fl is None:
-                opaque.add(b.id)
-            outs.append(t)
-        succ[b.id] = outs
-    # reachable part and its cycles (iterative DFS with colours)
-    colour, stack, cyc = {}, [(g.entry, iter(succ[g.entry]))], None
-    colour[g.entry] = 1
-    order = [g.entry]
-    while stack and cyc is None:
-        b, it = stack[-1]
-        for t in it:
-            if colour.get(t) == 1:
-                cyc = order[order.index(t):]
-                break
-            if t not in colour:
-                colour[t] = 1
-                order.append(t)
-                stack.append((t, iter(succ[t])))
-                break
-        else:
-            colour[b] = 2
-            order.pop()
-            stack.pop()
+    def find_cycle(g):
+        succ = {}
+        opaque = set()      # blocks whose branch does not depend on the flags at all
+        for b in g.blocks.values():
+            outs = []
+            for si, t in enumerate(b.succ):
+                if t is None:
+                    continue
+                atom, truth = sy.edge_truth(b, si)
+                fl = flag_of(atom)
+                if fl in fixed and truth != fixed[fl]:
+                    continue
+                if len(b.succ) == 2 and None not in b.succ and b.cond and fl is None:
+                    opaque.add(b.id)
+                outs.append(t)
+            succ[b.id] = outs
+        # reachable part and its cycles (iterative DFS with colours)
+        colour, stack, cyc = {}, [(g.entry, iter(succ[g.entry]))], None
+        colour[g.entry] = 1
+        order = [g.entry]
+        while stack and cyc is None:
+            b, it = stack[-1]
+            for t in it:
+                if colour.get(t) == 1:
+                    cyc = order[order.index(t):]
+                    break
+                if t not in colour:
+                    colour[t] = 1
+                    order.append(t)
+                    stack.append((t, iter(succ[t])))
+                    break
+            else:
+                colour[b] = 2
+                order.pop()
+                stack.pop()
+        return cyc, opaque
+
     E.count(R4)
     inst = 'termination of the loop closure of %s %s [%s]' % (f['q'].replace('rkcommon::tasking::', ''), f['fty'], tu.config)
-    if cyc is None:
-        ctx.ok(R4, inst, 'with %s the closure reaches its end on every path' %
-               ', '.join('%s == %s' % (k[1], str(v).lower()) for k, v in sorted(fixed.items())), tu.fn_loc(op))
-        return
-    where = [b for b in cyc if g.blocks[b].cond]
-    loc = tu.loc(tu.node(g.blocks[where[0]].cond)) if where else tu.fn_loc(op)
-    if any(b in opaque for b in cyc):
-        ctx.undecided(R4, inst, 'the loop closure contains a cycle controlled by a condition that is not a flag test: termination not '
-                      'decided', loc)
-        return
-    ctx.violation(R4, inst, 'after the destructor has cleared threadShouldBeAlive%s the loop thread can still cycle forever (blocks %s of '
-                  'its CFG never test a cleared flag on the way round): join() never returns / the task never ends'
-                  % (' and shouldBeRunning' if RUN in fixed else '', sorted(cyc)), loc,
-                  key='%s|%s|%s|loop-does-not-exit' % (R4, FILE, CLOSURE),
-                  path=['%s: `%s`' % (tu.loc(tu.node(g.blocks[b].cond)), tu.show(tu.node(g.blocks[b].cond))) for b in where])
+    # the closure and every helper of AsyncLoop.h it calls (followed calls); a cycle through a call chain would be recursion,
+    # which the inlining exploration of R-C03-1 already reports as undecided
+    fns = E.inl.reachable_fns(op)
+    bad = False
+    for fn in fns:
+        g = tu.cfg(fn)
+        cyc, opaque = find_cycle(g)
+        if cyc is None:
+            continue
+        bad = True
+        where = [b for b in cyc if g.blocks[b].cond]
+        loc = tu.loc(tu.node(g.blocks[where[0]].cond)) if where else tu.fn_loc(fn)
+        if any(b in opaque for b in cyc):
+            ctx.undecided(R4, inst, 'the loop thread (%s) contains a cycle controlled by a condition that is not a flag test: '
+                          'termination not decided' % fn['q'], loc)
+            continue
+        ctx.violation(R4, inst, 'after the destructor has cleared threadShouldBeAlive%s the loop thread can still cycle forever (blocks '
+                      '%s of the CFG of %s never test a cleared flag on the way round): join() never returns / the task never ends'
+                      % (' and shouldBeRunning' if RUN in fixed else '', sorted(cyc), fn['q'].split('::')[-1]), loc,
+                      key='%s|%s|%s|loop-does-not-exit' % (R4, FILE, CLOSURE),
+                      path=['%s: `%s`' % (tu.loc(tu.node(g.blocks[b].cond)), tu.show(tu.node(g.blocks[b].cond))) for b in where])
+    if not bad:
+        ctx.ok(R4, inst, 'with %s the loop thread (%d function(s)) reaches its end on every path' %
+               (', '.join('%s == %s' % (k[1], str(v).lower()) for k, v in sorted(fixed.items())), len(fns)), tu.fn_loc(op))
 
 
 def check_initial(E):
